@@ -44,6 +44,7 @@ import (
 	"github.com/meshplus/bitxhub-model/constant"
 	"github.com/meshplus/bitxhub-model/pb"
 	"github.com/meshplus/bitxhub/internal/executor/contracts"
+	"github.com/meshplus/bitxhub/internal/model/events"
 	"github.com/meshplus/bitxhub/pkg/proof"
 	"github.com/meshplus/bitxhub/pkg/utils"
 	"github.com/meshplus/bitxhub/verifharness/hx"
@@ -70,6 +71,7 @@ type world struct {
 	rev     map[string]string // lower-case address -> spec
 	prev    map[string][]byte // last raw dump
 	hasHook bool
+	ownCh   chan events.ExecutedEvent // own subscription to executed events (pipelined delivery), per executor instance
 }
 
 func keyOf(spec string, c *hx.Chain) crypto.PrivateKey {
@@ -546,6 +548,7 @@ type step struct {
 	Amt      string     `json:"amt"`
 	Hex      string     `json:"hex"`
 	Txs      []txSpec   `json:"txs"`
+	Group    [][]txSpec `json:"group"`
 	Local    *bool      `json:"local"`
 	Deadline int        `json:"deadline_ms"`
 	Tx       *txSpec    `json:"tx"`
@@ -585,7 +588,7 @@ func (w *world) doStep(s *step) map[string]interface{} {
 	switch s.Op {
 	case "seed_chain", "drop_chain", "seed_service", "fund", "set_code", "set_wasm_rule", "set_state", "seed_appchain_admin":
 		w.pending = append(w.pending, s)
-	case "block":
+	case "block", "blocks":
 		// The executed event of the previous block is posted BEFORE the executor's trailing
 		// ledger.Clear(); a seeding write made right after the event can be wiped by it.  Let the
 		// executor goroutine finish, then write the (idempotent) seeds again.
@@ -673,6 +676,9 @@ func (w *world) doStep1(s *step) map[string]interface{} {
 		l.SetState(roleAddr, []byte(contracts.RoleTypeKey(string(contracts.AppchainAdmin))), md, nil)
 		rd, _ := json.Marshal(contracts.Role{ID: addr, RoleType: contracts.AppchainAdmin, AppchainID: s.Chain, Status: governance.GovernanceAvailable})
 		l.SetState(roleAddr, []byte(contracts.RoleKey(addr)), rd, nil)
+		// ... and the appchain manager's own admin -> chain record (AppchainManager.getChainIdByAdmin: PermissionSelf)
+		cd, _ := json.Marshal(s.Chain)
+		l.SetState(constant.AppchainMgrContractAddr.Address(), []byte(appchainmgr.AppchainAdminKey(addr)), cd, nil)
 	case "rules": // the rule list of a chain as the proof pool will read it: [[address, status, master], ...]
 		ok, data := c.Ledger.GetState(constant.RuleManagerContractAddr.Address(), []byte(ruleMgr.RuleKey(s.Chain)))
 		var rl []*ruleMgr.Rule
@@ -729,6 +735,50 @@ func (w *world) doStep1(s *step) map[string]interface{} {
 			out["text"] = err.Error()
 		}
 		w.prev = nil
+		w.ownCh = nil
+	case "blocks": // several blocks delivered back to back (pipelined): {"group": [[tx...], [tx...]], "chain": readback}
+		var groups [][]pb.Transaction
+		for gi := range s.Group {
+			var txs []pb.Transaction
+			for i := range s.Group[gi] {
+				txs = append(txs, w.buildTx(&s.Group[gi][i]))
+			}
+			groups = append(groups, txs)
+		}
+		before := w.dump()
+		hBefore := c.Height()
+		dl := 12000
+		if s.Deadline > 0 {
+			dl = s.Deadline
+		}
+		evs := w.deliver(groups, true, time.Duration(dl)*time.Millisecond)
+		if len(evs) != len(groups) {
+			out["hang"] = true
+			return out
+		}
+		out["hang"] = false
+		var bl []map[string]interface{}
+		for gi, ev := range evs {
+			bl = append(bl, map[string]interface{}{"height": ev.Block.BlockHeader.Number, "receipts": w.receiptsOf(groups[gi], ev),
+				"counter": w.counter(ev.InterchainMeta.Counter), "ntimeout": len(ev.InterchainMeta.TimeoutCounter)})
+		}
+		out["blocks"] = bl
+		out["height"] = []uint64{hBefore, c.Height()}
+		after := w.dump()
+		ac, st, oth := w.diff(before, after)
+		out["accts"], out["state"], out["other"] = ac, st, oth
+		if s.Chain != "" {
+			ok, data := c.Ledger.GetState(constant.RuleManagerContractAddr.Address(), []byte(ruleMgr.RuleKey(s.Chain)))
+			var rl []*ruleMgr.Rule
+			if ok {
+				_ = json.Unmarshal(data, &rl)
+			}
+			lst := [][]interface{}{}
+			for _, r := range rl {
+				lst = append(lst, []interface{}{strings.ToLower(r.Address), string(r.Status), r.Master})
+			}
+			out["rules"] = lst
+		}
 	case "block":
 		var txs []pb.Transaction
 		for i := range s.Txs {
@@ -744,7 +794,14 @@ func (w *world) doStep1(s *step) map[string]interface{} {
 		if s.Deadline > 0 {
 			dl = s.Deadline
 		}
-		ev := c.ExecBlock(txs, local, time.Duration(dl)*time.Millisecond)
+		var ev *events.ExecutedEvent
+		if w.ownCh != nil {
+			if evs := w.deliver([][]pb.Transaction{txs}, local, time.Duration(dl)*time.Millisecond); len(evs) == 1 {
+				ev = evs[0]
+			}
+		} else {
+			ev = c.ExecBlock(txs, local, time.Duration(dl)*time.Millisecond)
+		}
 		if ev == nil {
 			out["hang"] = true
 			return out
@@ -753,44 +810,7 @@ func (w *world) doStep1(s *step) map[string]interface{} {
 		out["height"] = []uint64{hBefore, c.Height(), ev.Block.BlockHeader.Number}
 		out["ntx"] = len(txs)
 		out["nhash"] = len(ev.TxHashList)
-		var recs [][]interface{}
-		for i, tx := range txs {
-			r, err := c.Ledger.GetReceipt(tx.GetHash())
-			if err != nil {
-				recs = append(recs, []interface{}{-1, "no_receipt", ""})
-				continue
-			}
-			st := 0
-			if r.Status != pb.Receipt_SUCCESS {
-				st = 1
-			}
-			ordered := i < len(ev.TxHashList) && ev.TxHashList[i].String() == tx.GetHash().String()
-			var retv interface{}
-			if st == 0 {
-				retv = valCode(r.Ret, len(r.Ret) > 0)
-			}
-			// the interchain events the receipt carries: [destination chain, index the event is stamped with, isBatch]
-			posted := [][]interface{}{}
-			for _, ev := range r.Events {
-				if ev.EventType != pb.Event_INTERCHAIN {
-					continue
-				}
-				m := map[string]*pb.EventWrapper{}
-				if json.Unmarshal(ev.Data, &m) != nil {
-					posted = append(posted, []interface{}{"?", -1, false})
-					continue
-				}
-				ks := make([]string, 0, len(m))
-				for k := range m {
-					ks = append(ks, k)
-				}
-				sort.Strings(ks)
-				for _, k := range ks {
-					posted = append(posted, []interface{}{k, m[k].Index, m[k].IsBatch})
-				}
-			}
-			recs = append(recs, []interface{}{st, errClass(string(r.Ret)), retText(r.Ret), ordered, len(r.Events), retv, posted})
-		}
+		recs := w.receiptsOf(txs, ev)
 		out["receipts"] = recs
 		out["counter"] = w.counter(ev.InterchainMeta.Counter)
 		out["ntimeout"] = len(ev.InterchainMeta.TimeoutCounter)
@@ -873,6 +893,93 @@ type history struct {
 	} `json:"cfg"`
 	Steps   []step `json:"steps"`
 	Timeout int    `json:"timeout_ms"`
+}
+
+// receiptsOf projects the receipts of the transactions of one executed block
+func (w *world) receiptsOf(txs []pb.Transaction, ev *events.ExecutedEvent) [][]interface{} {
+	c := w.c
+	var recs [][]interface{}
+	for i, tx := range txs {
+		r, err := c.Ledger.GetReceipt(tx.GetHash())
+		if err != nil {
+			recs = append(recs, []interface{}{-1, "no_receipt", ""})
+			continue
+		}
+		st := 0
+		if r.Status != pb.Receipt_SUCCESS {
+			st = 1
+		}
+		ordered := i < len(ev.TxHashList) && ev.TxHashList[i].String() == tx.GetHash().String()
+		var retv interface{}
+		if st == 0 {
+			retv = valCode(r.Ret, len(r.Ret) > 0)
+		}
+		// the interchain events the receipt carries: [destination chain, index the event is stamped with, isBatch]
+		posted := [][]interface{}{}
+		for _, ev := range r.Events {
+			if ev.EventType != pb.Event_INTERCHAIN {
+				continue
+			}
+			m := map[string]*pb.EventWrapper{}
+			if json.Unmarshal(ev.Data, &m) != nil {
+				posted = append(posted, []interface{}{"?", -1, false})
+				continue
+			}
+			ks := make([]string, 0, len(m))
+			for k := range m {
+				ks = append(ks, k)
+			}
+			sort.Strings(ks)
+			for _, k := range ks {
+				posted = append(posted, []interface{}{k, m[k].Index, m[k].IsBatch})
+			}
+		}
+		recs = append(recs, []interface{}{st, errClass(string(r.Ret)), retText(r.Ret), ordered, len(r.Events), retv, posted})
+	}
+	return recs
+}
+
+// deliver sends the given blocks to the executor BACK TO BACK, without waiting for the executed
+// event of one before sending the next (consensus faster than execution, catch-up), through the
+// exported Executor.ExecuteBlock, and then collects their executed events from a subscription
+// of its own.  hx.Chain.ExecBlock's channel is not drained by this, so from the first use on
+// every block of this executor instance goes through here.
+func (w *world) deliver(groups [][]pb.Transaction, local bool, deadline time.Duration) []*events.ExecutedEvent {
+	c := w.c
+	if w.ownCh == nil {
+		w.ownCh = make(chan events.ExecutedEvent, 64)
+		c.Exec.SubscribeBlockEvent(w.ownCh)
+	}
+	h := c.Height()
+	for i, txs := range groups {
+		c.NextTime += 1_000_000_000
+		block := &pb.Block{
+			BlockHeader:  &pb.BlockHeader{Version: []byte("1.0.0"), Number: h + 1 + uint64(i), Timestamp: c.NextTime},
+			Transactions: &pb.Transactions{Transactions: txs},
+		}
+		ll := make([]bool, len(txs))
+		for j := range ll {
+			ll[j] = local
+		}
+		c.Exec.ExecuteBlock(&pb.CommitEvent{Block: block, LocalList: ll})
+	}
+	var evs []*events.ExecutedEvent
+	for range groups {
+		select {
+		case ev := <-w.ownCh:
+			e := ev
+			evs = append(evs, &e)
+		case <-time.After(deadline):
+			return evs
+		}
+	}
+	// the executed event is posted before the executor's trailing Clear(): wait for it (see hx.Chain.waitCleared)
+	if sl, ok := c.Ledger.StateLedger.(interface{ VerifLoadedAccounts() int }); ok {
+		for i := 0; i < 4000 && sl.VerifLoadedAccounts() != 0; i++ {
+			time.Sleep(500 * time.Microsecond)
+		}
+	}
+	return evs
 }
 
 // runOne is the child: one history from stdin, one JSON line per step on stdout.
@@ -1112,5 +1219,5 @@ func isPromoted(t reflect.Type, name string) bool {
 }
 
 func main() {
-	hx.Main(map[string]func(args []string) error{"run": runAll, "one": runOne, "surface": surface})
+	hx.Main(map[string]func(args []string) error{"run": runAll, "one": runOne, "surface": surface, "digest": runDigest})
 }
